@@ -44,6 +44,11 @@ for k in range(39):
                        tier="quick" if k in QUICK_HIST else "thorough", **HB))
 # schedules B / C (an EMPTY value in the first / second operation, harness/C03/headers.rs) are written but NOT registered: the histories where an
 # append follows an empty value end in "CBMC out of memory" (measured: b_k04, c_k13), so "append to an empty value" is outside the enumerated states.
+EV = ["append to an empty owned value", "append to an empty borrowed value", "re-set after an empty value", "append an empty value", "empty value, removed, appended", "two empty appends to an absent header"]
+HARNESSES += [H(f"c03_hdr_empty_value_concrete_k{k:02d}", functions=[HF + "insert", HF + "append", HF + "remove", HF + "write_unchecked_to", HF + "_write_to", "push_unchecked!"],
+                clauses=["size == 2 + sum(name+2+value+2) over the view; the view is the latest value; the serializer writes exactly `size` bytes inside the reserved allocation; wire image"],
+                tier="thorough", **dict(HB, bound="ONE concrete history on a standard key with an EMPTY value among the operands: " + EV[k])) for k in (2, 4)]
+# k00 k01 k03 k05 (an APPEND involving an empty value) run out of memory even with concrete values (String::push_str growth under CBMC): not registered, so seeded change c03a stays missed
 RB = dict(crate="ohkami", strength="bounded", timeout=900, unwindset=UW, tier="quick")
 HARNESSES += [
 ] + [H(f"c03_complete_204_contract_k{k:02d}", functions=["response::Response::complete"], clauses=["status 204 => no Content-Length, Content::None, size updated"],
